@@ -739,7 +739,7 @@ class SplineParser(object):
                 "actual_notes": nom,
                 "normal_notes": den,
             }
-            dur = nom * den
+            dur = nom / den
         else:
             dur = float(dur)
             key_loolup = [2**i for i in range(0, 9)]
